@@ -161,6 +161,24 @@ theorem killTasks_facts {s : Sys} {jo : JobObj} (hc : s.podCache = s.pods) (hp :
   | true => exact podTask_finished (hp.sane p hpm).2 hpt hfin
   | false => rw [hf.2.2.2.2.2.2.2 hfin]; rfl
 
+/-- in kill mode a name denotes one task value: every listed task is read from the pod of its name on the
+server, and pod names are pairwise distinct -/
+theorem killTasks_fn {s : Sys} {jo : JobObj} (hc : s.podCache = s.pods) (hp : KPods jo s) : TasksFn (killTasks s jo) := by
+  refine ⟨fun t ht => ?_, fun t ht t' ht' hn => ?_⟩
+  · obtain ⟨p, _, hpt⟩ := killTasks_mem hc hp ht
+    exact podTask_refName hpt
+  · obtain ⟨p, hpm, hpt⟩ := killTasks_mem hc hp ht
+    obtain ⟨p', hpm', hpt'⟩ := killTasks_mem hc hp ht'
+    have e1 := (podTask_fields hpt).1
+    have e2 := (podTask_fields hpt').1
+    have hpp : p' = p := by
+      have f1 := findPod_of_mem_nodup hp.nodup hpm
+      have f2 := findPod_of_mem_nodup hp.nodup hpm'
+      rw [← e2, hn, e1, f1] at f2
+      exact (Option.some.inj f2).symm
+    rw [hpp, hpt] at hpt'
+    exact (Option.some.inj hpt').symm
+
 /-! ### the pass -/
 
 theorem syncCreateTasks_kill (s : Sys) (jo : JobObj) (rj : Job) (T : List Task) (kt : Time)
@@ -174,7 +192,7 @@ deleted yet: the pods of exactly the unfinished listed tasks get the deletion ti
 on is a recomputed status of a Job with the same spec -/
 theorem syncJobTasks_kill (sp : Sys) (jo : JobObj) (kt : Time) (hspec : KillSpec jo.job kt) (hle : kt ≤ sp.clock)
     (hnf : NoFault sp) (hnd : (podNames sp.pods).Nodup)
-    (hdts : ∀ t ∈ killTasks sp jo, t.deletionTimestamp = none) :
+    (hdts : ∀ t ∈ killTasks sp jo, t.deletionTimestamp = none) (hfn : TasksFn (killTasks sp jo)) :
     ∃ s6 rj5 N, syncJobTasks sp jo jo.job = (s6, some (recompute sp.clock sp.d rj5 (killTasks sp jo))) ∧
       MarkedT (jobKey jo) sp s6 N ∧
       (∀ n, n ∈ N ↔ ∃ t ∈ killTasks sp jo, t.name = n ∧ isTaskFinished t = false) ∧
@@ -200,6 +218,7 @@ theorem syncJobTasks_kill (sp : Sys) (jo : JobObj) (kt : Time) (hspec : KillSpec
   -- pending tasks
   obtain ⟨s3, rj3, N3, hP, hm3, hN3, hs3, hn3, hst3, _⟩ :=
     handlePending_kill s2 jo (recompute sp.clock sp.d jo.job (killTasks sp jo)) (killTasks sp jo) hnf2 hnd2 hdts
+      hfn sp.clock jo.job.status.tasks (recompute_sameSpec sp.clock sp.d jo.job (killTasks sp jo)).2.1
   have hnf3 : NoFault s3 := hm3.nofault hnf2
   have hnd3 : (podNames s3.pods).Nodup := by rw [hm3.pods, podNames_markDts]; exact hnd2
   have hk3 : KillSpec rj3 kt := hk2.congr hs3 hst3
